@@ -54,6 +54,9 @@ ResamplingWithPrior& ResamplingWithPrior::operator=(ResamplingWithPrior&& resamp
 
     init_model_ = std::move(resampling.init_model_);
 
+    prior_ratio_ = resampling.prior_ratio_;
+    resampling.prior_ratio_ = 0.5;
+
     return *this;
 }
 
